@@ -102,6 +102,9 @@ func (w *world) execVC(f []string) string {
 
 func genVC(rng *hx.Rng) []string {
 	var ops []string
+	if kt := hx.Pick(rng, vnKeyTypes); kt != "int" {
+		ops = append(ops, "vn keytype "+kt)
+	}
 	for r := 0; r < 60; r++ {
 		ops = append(ops, fmt.Sprintf("vc %d %d %d", 4+rng.Intn(5), r%3, rng.Intn(1000000)))
 	}
